@@ -261,9 +261,23 @@ func mayReturnNil(fn *ssa.Function) bool {
 	if _, ok := fn.Signature.Results().At(0).Type().Underlying().(*types.Pointer); !ok {
 		return false
 	}
+	return mayReturnNilD(fn, 0)
+}
+
+func mayReturnNilD(fn *ssa.Function, depth int) bool {
 	for _, r := range Returns(fn) {
-		if IsNilConst(RetVals(r)[0]) {
-			return true
+		// through phis: `var best *T; for … { best = x }; return best`
+		for _, l := range phiLeaves(RetVals(r)[0]) {
+			if IsNilConst(l.v) {
+				return true
+			}
+			if call, ok := l.v.(*ssa.Call); ok && depth < 2 {
+				if f := call.Call.StaticCallee(); f != nil && f != fn && f.Blocks != nil && InRepo(f) && f.Signature.Results().Len() == 1 {
+					if _, isPtr := f.Signature.Results().At(0).Type().Underlying().(*types.Pointer); isPtr && mayReturnNilD(f, depth+1) {
+						return true
+					}
+				}
+			}
 		}
 	}
 	return false
